@@ -727,8 +727,9 @@ def plant_wf(r, fns, wf, aux):
     for s in ("skipIf", "forEach", "state", "refSwitch"):
         if s in step:
             sites.append(s)
-    if ABSORBING[0]:    # an absorbed failure among the forEach items changes which objects the iterations manage
-        sites = [s for s in sites if s != "forEach"]
+    if ABSORBING[0]:    # an absorbed failure among the forEach items changes which objects the iterations manage;
+        # `"x" + string(err)` is a plain Python str, which refSwitch (celtypes.StringType | IntType) rejects as a type
+        sites = [s for s in sites if s not in ("forEach", "refSwitch")]
     site = r.choice(sites)
     d = {"site": f"step[{k}].{site}"}
     if site == "inputs":
